@@ -73,6 +73,10 @@ type ReportedViol struct {
 	Msg    string `json:"msg"`
 	Replay string `json:"replay"`
 	Seed   int64  `json:"run_index"`
+	// the original (un-minimised) run, for a sequence replay should the minimal case not reproduce in a fresh process
+	OrigTrace  uint64 `json:"orig_trace"`
+	OrigEvents uint64 `json:"orig_events"`
+	OrigMsg    string `json:"orig_msg"`
 }
 
 var slugRe = regexp.MustCompile(`[^A-Za-z0-9]+`)
@@ -319,7 +323,7 @@ func reportViolation(t *testing.T, st *WorkerStats, prop string, v Violation, sc
 		path = fmt.Sprintf("%s/%s-%s-%d-%d.json", dir, prop, slug(v.Sig), verifSeed, idx)
 		os.WriteFile(path, rf.JSON(), 0o644)
 	}
-	return ReportedViol{Sig: v.Sig, Msg: msg, Replay: path, Seed: idx}
+	return ReportedViol{Sig: v.Sig, Msg: msg, Replay: path, Seed: idx, OrigTrace: res.TraceHash, OrigEvents: res.EventHash, OrigMsg: v.Msg}
 }
 
 func compactLog(l []string) []string {
@@ -350,6 +354,37 @@ func replayFile(t *testing.T, prop, path string) {
 	if err := json.Unmarshal(b, &rf); err != nil {
 		fmt.Println("TOOL-TROUBLE cannot parse replay:", err)
 		os.Exit(2)
+	}
+	if rf.Sequence != nil {
+		// re-execute the worker's sequence of runs up to the reported one; the verdict is that run's
+		gens := generators[prop]
+		var last *Result
+		for k := int64(0); ; k++ {
+			idx := int64(rf.Sequence.Worker) + k*int64(rf.Sequence.NWorkers)
+			if idx > rf.RunIndex {
+				break
+			}
+			seed := runSeed(rf.VerifSeed, idx)
+			gen := gens[int(idx/int64(rf.Sequence.NWorkers))%len(gens)]
+			if len(gens) > 1 {
+				gen = gens[int(splitmix64(seed)%uint64(len(gens)))]
+			}
+			genRunIndex = idx
+			sc := gen(prop, seed, rf.Sequence.Tier == "thorough")
+			last = RunScenario(t, sc, simrt.NewPolicy(sc.Policy), true)
+		}
+		v := hasSig(last, rf.Property, rf.Signature)
+		out := map[string]any{"reproduced": v != nil, "identical_trace": v != nil && last.TraceHash == rf.TraceHash && last.EventHash == rf.EventHash, "diverged": "", "signature": rf.Signature, "outcome": last.Outcome, "sequence": true}
+		if v != nil {
+			out["message"] = v.Msg
+		}
+		jb, _ := json.Marshal(out)
+		fmt.Println("REPLAY-RESULT " + string(jb))
+		if v != nil {
+			fmt.Printf("VIOLATION property=%s replay=%s\n", rf.Property, path)
+			os.Exit(1)
+		}
+		return
 	}
 	if rf.Spin {
 		// no tape exists for a run that never ended: re-run it under its own policy with the watchdog armed
